@@ -101,3 +101,45 @@ pub fn run(cx: &mut Ctx) {
         },
     );
 }
+
+#[allow(unconditional_recursion)]
+fn recurse(n: u64) -> u64 {
+    let a = [n; 64];
+    std::hint::black_box(&a);
+    recurse(n + 1) + a[3]
+}
+
+/// Exercise the E3 machinery: VH_ISO_TEST = pass | panic | overflow | hang | alloc
+pub fn run_iso(cx: &mut Ctx) {
+    let kind = std::env::var("VH_ISO_TEST").unwrap_or_else(|_| "pass".into());
+    cx.check_isolated(
+        "iso",
+        "self",
+        Budget { quick: 4000, thorough: 4000, max_len: 64 },
+        crate::isolate::IsoOpts { watchdog_s: 2, chunk: 500, ..Default::default() },
+        move |u, st| {
+            let x = u.u16();
+            st.class("case");
+            st.nontrivial(x as u64);
+            st.describe(|| json!({"x": x}));
+            if x % 1000 == 7 {
+                match kind.as_str() {
+                    "panic" => panic!("boom {}", x),
+                    "overflow" => {
+                        std::hint::black_box(recurse(x as u64));
+                    }
+                    "hang" => loop {
+                        std::thread::sleep(std::time::Duration::from_millis(50));
+                    },
+                    "alloc" => {
+                        let v: Vec<u8> = Vec::with_capacity(1usize << 45);
+                        std::hint::black_box(&v);
+                    }
+                    "fail" => fail!("self/iso-fail", {"x": x}),
+                    _ => {}
+                }
+            }
+            Ok(())
+        },
+    );
+}
